@@ -158,7 +158,7 @@ class C12(Sim):
     PROBES = ["zero_vector", "point_box", "empty_box", "empty_intersection", "infinite_box", "raising_call",
               "errmode_nondefault", "errmode_flip", "shared_array_boxes", "pad_aliased_box", "boundary_point", "contained_point",
               "outside_point", "degenerate_triangle", "parallel_lines", "parallel_vectors", "inplace_normalize", "mesh_box",
-              "tiny_scale", "huge_scale", "same_array_twice"]
+              "tiny_scale", "huge_scale", "same_array_twice", "needle_corner"]
     QUICK_RUNS = 8000
     THOROUGH_RUNS = 1000000
     BLOCK = 100
@@ -689,7 +689,23 @@ class C12(Sim):
         ops = self.cfg["prim_ops"]
         if len(self.arr) < MAX_ARRAYS and r.chance(0.08):
             return self._prop_new_vec(r, r.choice([2, 3, 3]))
+        d3 = self.ids_dim(3)
+        if len(self.arr) < MAX_ARRAYS and len(d3) >= 2 and ("cotan" in ops or "angle_3pts" in ops) and r.chance(0.05):
+            # a needle corner: C almost on the line (B, A), so that the angle ABC is within 1e-7 .. 1e-3 rad of 0 or pi
+            ia, ib = r.sample(d3, 2)
+            A, B = self.vals(ia), self.vals(ib)
+            k = r.choice([2.0, 0.5, -1.0, 3.0, -0.25])
+            side = max(abs(a - b) for a, b in zip(A, B))
+            if side > 0:
+                tiny = r.choice([1e-3, 1e-4, 1e-5, 1e-6, 3e-7]) * side
+                j = r.below(3)
+                C = [b + k * (a - b) + (tiny if q == j else 0.0) for q, (a, b) in enumerate(zip(A, B))]
+                self._sliver = [ia, ib, self.next_arr]
+                return self._new_arr(C)
         op = r.choice(ops)
+        sl = getattr(self, "_sliver", None)
+        if sl and op in ("cotan", "angle_3pts") and all(i in self.arr for i in sl) and r.chance(0.6):
+            return {"op": op, "a": list(sl)}
         if op == "roots":
             e = r.choice([0, 0, -3, 3])
             c = [self._gen_comp(r) * 10.0 ** e, self._gen_comp(r) * 10.0 ** e]
@@ -1488,9 +1504,12 @@ class C12(Sim):
         M = Fraction(self.mag((i, j, k)))
         # degenerate (angle 0 / pi, or undefined) or ill-conditioned (a side shorter than 1e-3 of the coordinates, so that
         # forming B->A, B->C in float64 already loses the angle): side effects only
-        if not (uu > 0 and vv > 0 and s2 >= m2 * uu * vv and min(uu, vv) >= m2 * M * M):
+        # (the exact value is judged down to needle corners, |sin| >= 1e-7: the tolerance below grows like 1/sin^2, as the function's conditioning)
+        if not (uu > 0 and vv > 0 and s2 >= Fraction(1, 10 ** 14) * uu * vv and min(uu, vv) >= m2 * M * M):
             self.probes["degenerate_triangle"] += 1
             return self._done(out)
+        if s2 < m2 * uu * vv:
+            self.probes["needle_corner"] += 1
         ac = self.sc((i, j, k))
         self._need_ok(out, "cotan-reciprocal-tangent", "cotan", ac)
         # "cotangent is the reciprocal tangent of the angle": exact cos/sin of the angle ABC ...
@@ -1503,7 +1522,7 @@ class C12(Sim):
             self._bad_value("cotan-reciprocal-tangent", "cotan", "geometry.cotan", ac,
                             "cotan(%r, %r, %r) = %r, cos/sin of the angle is %r" % (self.vals(i), self.vals(j), self.vals(k), out.value, exp))
         # ... and against the library's own angle, where neither the tangent nor the cotangent is near a pole
-        if c * c >= m2 * uu * vv:
+        if c * c >= m2 * uu * vv and s2 >= m2 * uu * vv:
             self._settle()
             o2 = self._call(ev, self.G.angle_3pts, self.V(i), self.V(j), self.V(k), arrs=(i, j, k))
             self._need_ok(o2, "cotan-reciprocal-tangent", "cotan", ac, "angle_3pts on the same points")
